@@ -44,8 +44,23 @@ func (c *AcmeStorages) Acquire(name string) *AcmeCerts {
 		}
 		c.items[name] = storage
 		c.itemsAdd[name] = storage
+	} else if _, tracked := c.itemsAdd[name]; !tracked {
+		// a committed storage is about to be changed in place: keep a copy of
+		// its former state, so shrink() and AcmeUpdate() can see the difference
+		if _, removed := c.itemsDel[name]; !removed {
+			c.itemsDel[name] = storage.clone()
+		}
+		c.itemsAdd[name] = storage
 	}
 	return storage
+}
+
+func (c *AcmeCerts) clone() *AcmeCerts {
+	certs := make(map[string]struct{}, len(c.certs))
+	for cert := range c.certs {
+		certs[cert] = struct{}{}
+	}
+	return &AcmeCerts{certs: certs, preferredChain: c.preferredChain}
 }
 
 // Updated ...
